@@ -76,6 +76,11 @@ func MaybeChild() bool {
 			b.Reset()
 		}
 	}
+	// a panic in one of the adapter's writer goroutines first runs that
+	// goroutine's deferred WaitGroup.Done, so this goroutine may get here before
+	// the runtime takes the process down: give it time to, so that the outcome
+	// does not depend on a race
+	time.Sleep(300 * time.Millisecond)
 	out := []string{}
 	it := db.Iterator(nil, nil)
 	for ; it.Valid(); it.Next() {
@@ -188,7 +193,7 @@ func (s *sim) opChildBadgerReuse() {
 		if i := strings.Index(frame, "("); i > 0 && strings.Contains(frame, ".func") {
 			frame = frame[:strings.LastIndex(frame, "(")]
 		}
-		if s.c.Violate("panic", "c19/badger/batch-reuse/process-panic",
+		if s.c.Violate("panic", badgerReuseKey,
 			"one badger batch object used as [%s]: the process dies with %q (first repository frame: %s); every other backend accepts the same sequence",
 			strings.Join(desc, ", "), panicLine, frame) {
 			s.halt()
@@ -200,11 +205,21 @@ func (s *sim) opChildBadgerReuse() {
 		exp = append(exp, hex.EncodeToString(e.k)+"="+hex.EncodeToString(e.v))
 	}
 	if want := strings.Join(exp, ";"); want != result {
-		if s.c.Violate("equivalence", "c19/badger/batch-reuse/content", "one badger batch object used as [%s]: database holds %q, model %q", strings.Join(desc, ", "), result, want) {
+		// (same key and class as the panic: when the child's main goroutine wins the
+		// race against the dying writer goroutine, the same defect shows as lost writes)
+		if len(result) > 200 {
+			result = result[:200] + "..."
+		}
+		if len(want) > 200 {
+			want = want[:200] + "..."
+		}
+		if s.c.Violate("panic", badgerReuseKey, "one badger batch object used as [%s]: database holds %q, model %q", strings.Join(desc, ", "), result, want) {
 			s.halt()
 		}
 	}
 }
+
+const badgerReuseKey = "c19/badger/batch-reuse/process-panic-or-writes-lost"
 
 func lastBytes(b []byte, n int) string {
 	b = bytes.TrimSpace(b)
